@@ -24,7 +24,9 @@ def pgetOwnFree : List Op → List Res → Bool
   | _ :: ops, _ :: rs => pgetOwnFree ops rs
   | _, _ => true
 
-/-- snapshots acquired later are not older (true for the default `SnapshotMustIncludeTxID`). -/
+/-- snapshots acquired later are not older (true for the default `SnapshotMustIncludeTxID`).
+No longer a side condition of `serializable_partial`: it was needed only while `checkPreconditions` stopped at
+the first up-to-date snapshot (DESIGN K8, repaired). -/
 def snapMonotone : List Snap → Bool
   | [] => true
   | s :: rest => rest.all (fun r => s.base ≤ r.base) && snapMonotone rest
